@@ -42,9 +42,23 @@ pub struct Env {
     pub ended_mask: Cell<u32>,
     /// Number of polls of an already-ended *fused* source (allowed; counted for information).
     pub fused_repolls: Cell<u32>,
+    /// Event log (answers of the scripted objects), only kept under `--replay`.
+    trace: RefCell<Option<Vec<String>>>,
 }
 
 impl Env {
+    pub fn enable_trace(&self) {
+        *self.trace.borrow_mut() = Some(vec![]);
+    }
+    pub fn take_trace(&self) -> Vec<String> {
+        self.trace.borrow_mut().take().unwrap_or_default()
+    }
+    #[inline]
+    pub fn log(&self, f: impl FnOnce() -> String) {
+        if let Some(t) = self.trace.borrow_mut().as_mut() {
+            t.push(f());
+        }
+    }
     pub fn new(ch: Chooser) -> Rc<Self> {
         Rc::new(Env {
             ch: RefCell::new(ch),
@@ -54,6 +68,7 @@ impl Env {
             arrivals: RefCell::new(vec![]),
             ended_mask: Cell::new(0),
             fused_repolls: Cell::new(0),
+            trace: RefCell::new(None),
         })
     }
     /// Move the chooser back out (the `Env` may still be referenced by dropped-later scripts).
@@ -141,16 +156,19 @@ impl<T, const FUSED: bool> Pull for Script<T, FUSED> {
             panic!("VF-REPOLL: non-fused upstream #{} pulled again after it returned Ended", this.id);
         }
         if this.env.pend() {
+            this.env.log(|| format!("pull source #{}: Pending", this.id));
             return PullStep::Pending(Yes);
         }
         match this.items.pop_front() {
             Some(x) => {
                 this.env.arrivals.borrow_mut().push(this.id);
+                this.env.log(|| format!("pull source #{}: Ready (item {} of its script)", this.id, this.env.arrivals.borrow().iter().filter(|i| **i == this.id).count()));
                 PullStep::Ready(x, ())
             }
             None => {
                 this.ended = true;
                 this.env.mark_ended(this.id);
+                this.env.log(|| format!("pull source #{}: Ended", this.id));
                 PullStep::Ended(Yes)
             }
         }
@@ -199,8 +217,10 @@ impl<T, const FUSED: bool> Stream for ScriptStream<T, FUSED> {
         }
         if this.env.pend() {
             cx.waker().wake_by_ref();
+            this.env.log(|| format!("stream #{}: Pending", this.id));
             return Poll::Pending;
         }
+        this.env.log(|| format!("stream #{}: {}", this.id, if this.items.is_empty() { "None" } else { "Some(item)" }));
         match this.items.pop_front() {
             Some(x) => {
                 this.env.arrivals.borrow_mut().push(this.id);
@@ -247,8 +267,10 @@ impl<O> Future for ScriptFut<O> {
         }
         if this.env.pend() {
             cx.waker().wake_by_ref();
+            this.env.log(|| "future: Pending".to_string());
             return Poll::Pending;
         }
+        this.env.log(|| "future: Ready".to_string());
         Poll::Ready(this.out.take().unwrap())
     }
 }
@@ -322,9 +344,11 @@ impl<T> Push<T, ()> for CheckPush<T> {
             if d.ready == 1 {
                 d.ready = 2;
             }
+            self.env.log(|| format!("downstream {}: poll_ready -> Pending", d.id));
             return PushStep::Pending(Yes);
         }
         d.ready = 1;
+        self.env.log(|| format!("downstream {}: poll_ready -> Done", d.id));
         PushStep::Done
     }
 
@@ -350,6 +374,7 @@ impl<T> Push<T, ()> for CheckPush<T> {
             }
         }
         d.ready = 0;
+        self.env.log(|| format!("downstream {}: start_send (item #{})", d.id, d.items.len()));
         d.items.push(item);
     }
 
@@ -357,12 +382,15 @@ impl<T> Push<T, ()> for CheckPush<T> {
         let mut d = self.st.borrow_mut();
         if d.finalized {
             d.polls_after_final += 1;
+            self.env.log(|| format!("downstream {}: poll_finalize again after Done -> Done", d.id));
             return PushStep::Done;
         }
         if self.env.pend() {
+            self.env.log(|| format!("downstream {}: poll_finalize -> Pending", d.id));
             return PushStep::Pending(Yes);
         }
         d.finalized = true;
+        self.env.log(|| format!("downstream {}: poll_finalize -> Done", d.id));
         PushStep::Done
     }
 
@@ -498,10 +526,20 @@ pub fn drive_pull<P: Pull>(env: &Env, mut p: Pin<&mut P>, expected_len: usize, e
     let mut pendings = 0;
     let mut steps = 0;
     loop {
-        check_hint(env, p.size_hint(), expected_len, items.len());
+        let h = p.size_hint();
+        check_hint(env, h, expected_len, items.len());
         env.pended.set(false);
         let ctx = <P::Ctx<'_> as dfir_pipes::Context<'_>>::from_task(&mut tcx);
-        match p.as_mut().pull(ctx) {
+        let step = p.as_mut().pull(ctx);
+        env.log(|| {
+            let what = match &step {
+                PullStep::Ready(..) => "Ready",
+                PullStep::Pending(_) => "Pending",
+                PullStep::Ended(_) => "Ended",
+            };
+            format!("  => combinator pull #{steps}: {what} (size_hint before it: {h:?})")
+        });
+        match step {
             PullStep::Ready(x, _) => items.push(x),
             PullStep::Pending(_) => {
                 pendings += 1;
@@ -597,7 +635,9 @@ where
     for it in items {
         loop {
             let ctx = <P::Ctx<'_> as dfir_pipes::Context<'_>>::from_task(&mut tcx);
-            match p.as_mut().poll_ready(ctx) {
+            let r = p.as_mut().poll_ready(ctx);
+            env.log(|| format!("  => driver poll_ready: {}", if r.is_done() { "Done" } else { "Pending" }));
+            match r {
                 PushStep::Done => break,
                 PushStep::Pending(_) => pendings += 1,
             }
@@ -607,11 +647,14 @@ where
                 return pendings;
             }
         }
+        env.log(|| "  => driver start_send".to_string());
         p.as_mut().start_send(it, ());
     }
     loop {
         let ctx = <P::Ctx<'_> as dfir_pipes::Context<'_>>::from_task(&mut tcx);
-        match p.as_mut().poll_finalize(ctx) {
+        let r = p.as_mut().poll_finalize(ctx);
+        env.log(|| format!("  => driver poll_finalize: {}", if r.is_done() { "Done" } else { "Pending" }));
+        match r {
             PushStep::Done => break,
             PushStep::Pending(_) => pendings += 1,
         }
